@@ -19,7 +19,22 @@ func genArCase(t *rapid.T) ArCase {
 	n := rapid.SampledFrom([]int{0, 1, 2, 2, 3, 3, 4, 5, 8}).Draw(t, "n")
 	c := ArCase{}
 	for i := 0; i < n; i++ {
-		c.Members = append(c.Members, genArMember(t, "m"))
+		m := genArMember(t, "m")
+		if i > 0 && rapid.IntRange(0, 2).Draw(t, "likePrev") == 0 {
+			// archives written in one go: members share timestamp/owner/group (and maybe name length or
+			// size) with their predecessor while the rest differs
+			p := c.Members[i-1]
+			m.MTime, m.UID, m.GID, m.BlankM, m.BlankU, m.BlankG = p.MTime, p.UID, p.GID, p.BlankM, p.BlankU, p.BlankG
+			switch rapid.IntRange(0, 3).Draw(t, "alsoSame") {
+			case 0:
+				m.Mode, m.BlankMode = p.Mode, p.BlankMode
+			case 1:
+				m.Data = append([]byte{}, p.Data...)
+			case 2:
+				m.Name = p.Name
+			}
+		}
+		c.Members = append(c.Members, m)
 	}
 	if n > 0 {
 		c.Half = rapid.IntRange(0, n-1).Draw(t, "half")
